@@ -4,6 +4,7 @@ package main
 // of Drop.
 
 import (
+	"berty.tech/go-orbit-db/events"
 	"sync/atomic"
 	"context"
 	"fmt"
@@ -85,6 +86,12 @@ func (w *World) execCloseOp(ctx context.Context, toks []string) (bool, error) {
 		// Close twice: both calls must return without error
 		p := atoi(toks[1])
 		s := w.stores[p]
+		// a subscriber on the store's legacy channel API (its context is the caller's, it stays live):
+		// closing the store must end the channel it was given
+		if w.legacyOf == nil {
+			w.legacyOf = map[int]<-chan events.Event{}
+		}
+		w.legacyOf[p] = s.Subscribe(w.ctx) //nolint:staticcheck
 		r1 := timed(2*time.Second, s.Close)
 		r2 := timed(2*time.Second, s.Close)
 		w.net.closeTopic(p, w.dbAddr)
@@ -225,6 +232,15 @@ func (w *World) execCloseOp(ctx context.Context, toks []string) (bool, error) {
 		add("load", func() error { return s.Load(ctx, -1) })
 		add("sync", func() error { return s.Sync(ctx, cloneEntries(w.anyHeads())) })
 		add("close", s.Close)
+		if ch := w.legacyOf[p]; ch != nil {
+			// the legacy channel handed out before the store was closed has been closed
+			add("legacy", func() error {
+				for range ch {
+				}
+				return nil
+			})
+			delete(w.legacyOf, p)
+		}
 		time.Sleep(2 * time.Millisecond)
 		w.printf("afterclose %d %s\n", p, strings.Join(parts, " "))
 	case "dropstore":
